@@ -275,4 +275,156 @@ theorem findSubroutines_inv {song : Song} {Xl : List Event} {subId : Int} {bm : 
     exact forIn_inv' _ (fun s : Song × SAMap × Nat => SubInv song Xl (jumpEvent subId) (trackIdOfParam subId) s.1)
       _ _ hb (fun _ _ b hb r hr => fsInner_step hb hbzX hnojX hlen hd hr) r2 hr2
 
+/-! ## inserting the new track (`Song::make_track`: `setTrack` on a fresh id) -/
+
+/-- `Array.qsort` returns a permutation of its input.  A fact about the core library's in-place
+quicksort that is used as an explicit hypothesis below (its worker functions are private to
+`Init.Data.Array.QSort`; `qsortPerm_of_core` in `Proofs/OptQSort.lean` discharges it if present). -/
+def QSortPerm : Prop :=
+  ∀ l : List (Nat × List Event), ((l.toArray.qsort (fun a b => a.1 < b.1)).toList).Perm l
+
+theorem lookup_none_iff {β : Type} (l : List (Nat × β)) (k : Nat) :
+    l.lookup k = none ↔ ∀ p ∈ l, p.1 ≠ k := by
+  induction l with
+  | nil => simp [List.lookup]
+  | cons p r ih =>
+    by_cases hk : k = p.1
+    · subst hk; simp [List.lookup]
+    · have h' : (k == p.1) = false := by simp [hk]
+      simp only [List.lookup, h', ih, List.mem_cons, forall_eq_or_imp]
+      constructor
+      · intro h; exact ⟨fun h2 => hk h2.symm, h⟩
+      · intro h; exact h.2
+
+theorem lookup_perm {β : Type} {l1 l2 : List (Nat × β)} (hp : l1.Perm l2) (hnd : (l1.map (·.1)).Nodup) (k : Nat) :
+    l1.lookup k = l2.lookup k := by
+  have hnd2 : (l2.map (·.1)).Nodup := (hp.map _).nodup_iff.1 hnd
+  cases h1 : l1.lookup k with
+  | some v =>
+    have : (k, v) ∈ l2 := hp.mem_iff.1 (mem_of_lookup h1)
+    exact (lookup_of_mem_nodup hnd2 this).symm
+  | none =>
+    cases h2 : l2.lookup k with
+    | none => rfl
+    | some v =>
+      have : (k, v) ∈ l1 := hp.mem_iff.2 (mem_of_lookup h2)
+      rw [lookup_of_mem_nodup hnd this] at h1
+      cases h1
+
+theorem setTrack_fresh_tracks {song : Song} {id : Nat} (hfresh : song.track? id = none) (evs : List Event) :
+    (setTrack song id evs).tracks =
+      ((song.tracks ++ [(id, evs)]).toArray.qsort (fun a b => a.1 < b.1)).toList := by
+  unfold setTrack
+  have : song.tracks.any (·.1 == id) = false := by
+    rw [List.any_eq_false]
+    intro p hp
+    have := (lookup_none_iff _ _).1 hfresh p hp
+    simpa using this
+  rw [this]
+  rfl
+
+theorem nodup_keys_snoc {song : Song} {id : Nat} (hnd : (song.tracks.map (·.1)).Nodup)
+    (hfresh : song.track? id = none) (evs : List Event) :
+    ((song.tracks ++ [(id, evs)]).map (·.1)).Nodup := by
+  rw [List.map_append, List.nodup_append]
+  refine ⟨hnd, by simp, ?_⟩
+  intro a ha b hb
+  simp only [List.map_cons, List.map_nil, List.mem_singleton] at hb
+  obtain ⟨p, hp, rfl⟩ := List.mem_map.1 ha
+  rw [hb]
+  exact (lookup_none_iff _ _).1 hfresh p hp
+
+/-- adding a track with a fresh id -/
+theorem track?_setTrack_fresh (hq : QSortPerm) {song : Song} {id : Nat}
+    (hnd : (song.tracks.map (·.1)).Nodup) (hfresh : song.track? id = none) (evs : List Event) (id' : Nat) :
+    (setTrack song id evs).track? id' = if id' = id then some evs else song.track? id' := by
+  unfold Song.track?
+  rw [setTrack_fresh_tracks hfresh]
+  have hp := hq (song.tracks ++ [(id, evs)])
+  have hnd' := nodup_keys_snoc hnd hfresh evs
+  rw [lookup_perm hp ((hp.map _).nodup_iff.2 hnd'), List.lookup_append]
+  by_cases h : id' = id
+  · subst h
+    have : List.lookup id' song.tracks = none := hfresh
+    simp [this, List.lookup]
+  · have hb : (id' == id) = false := by simp [h]
+    simp only [h, if_false, List.lookup, hb]
+    cases List.lookup id' song.tracks <;> rfl
+
+/-! ## the subroutine branch of `apply_match` -/
+
+theorem applyMatch_sub_inv (hq : QSortPerm) {song : Song} {m : SAMap} {bm : Match} {subId : Int}
+    {src : List Event} (hnd : (song.tracks.map (·.1)).Nodup)
+    (hbr : bm.loopScore < bm.subScore) (hsrc : song.track? bm.trackId = some src) (hbz : BrkZero src)
+    (hfresh : song.track? (trackIdOfParam subId) = none)
+    (hbzall : ∀ id t, song.track? id = some t → BrkZero t)
+    (hlen : bm.position + bm.subLength ≤ src.length)
+    {s3 : Song} {m3 : SAMap} {subId' : Int} (h : applyMatch song m bm subId = .ok (s3, m3, subId'))
+    (hnojX : ∀ x ∈ (src.drop bm.position).take bm.subLength, x ≠ jumpEvent subId) :
+    SubInv song ((src.drop bm.position).take bm.subLength) (jumpEvent subId) (trackIdOfParam subId) s3 ∧
+      subId' = wrap16 (subId + 1) := by
+  obtain ⟨Xl, hXl⟩ : ∃ Xl, Xl = (src.drop bm.position).take bm.subLength := ⟨_, rfl⟩
+  obtain ⟨subT, hsubT⟩ : ∃ subT, subT = trackIdOfParam subId := ⟨_, rfl⟩
+  have hXlen : Xl.length = bm.subLength := by
+    rw [hXl, List.length_take, List.length_drop]; omega
+  have hbzX : BrkZero Xl := by rw [hXl]; exact brkZero_take (brkZero_drop hbz _) _
+  have hne : bm.trackId ≠ subT := by
+    intro he; rw [he, hsubT, hfresh] at hsrc; cases hsrc
+  unfold applyMatch at h
+  simp only [hsrc, hbr, if_true, hfresh, Option.getD_none, List.nil_append, bind, Except.bind, pure,
+    Except.pure] at h
+  rw [← hXl] at h hnojX ⊢
+  rw [← hsubT] at h ⊢
+  -- the song with the new track
+  have hs1 : ∀ id', (setTrack song subT Xl).track? id' = if id' = subT then some Xl else song.track? id' := by
+    intro id'; rw [hsubT]; exact track?_setTrack_fresh hq hnd hfresh Xl id'
+  have hs1src : (setTrack song subT Xl).track? bm.trackId = some src := by
+    rw [hs1, if_neg hne]; exact hsrc
+  -- the first replacement
+  have hrw : (replaceWithSub (setTrack song subT Xl) m subId bm.trackId bm.position bm.subLength).1 =
+      setTrack (setTrack song subT Xl) bm.trackId
+        (src.take bm.position ++ [jumpEvent subId] ++ src.drop (bm.position + bm.subLength)) := by
+    unfold replaceWithSub
+    rw [hs1src]
+  cases hrs : replaceWithSub (setTrack song subT Xl) m subId bm.trackId bm.position bm.subLength with
+  | mk s2 m2 =>
+  rw [hrs] at h hrw
+  simp only at h hrw
+  split at h
+  · simp at h
+  · rename_i v hv
+    simp only [Except.ok.injEq, Prod.mk.injEq] at h
+    obtain ⟨h1, h2, h3⟩ := h
+    refine ⟨?_, h3.symm⟩
+    rw [← h1]
+    have hinv2 : SubInv song Xl (jumpEvent subId) subT
+        (setTrack (setTrack song subT Xl) bm.trackId
+          (src.take bm.position ++ [jumpEvent subId] ++ src.drop (bm.position + bm.subLength))) := by
+      constructor
+      · rw [track?_setTrack hs1src, if_neg (Ne.symm hne), hs1, if_pos rfl]
+      · intro id hid
+        rw [track?_setTrack hs1src]
+        by_cases hi : id = bm.trackId
+        · subst hi
+          right
+          refine ⟨src, _, hsrc, by rw [if_pos rfl], ?_, brkZero_jump_splice hbz _ _ _⟩
+          have hsplit := split4 src 0 bm.position bm.subLength (Nat.zero_le _)
+          simp only [List.take_zero, List.nil_append, Nat.sub_zero, List.drop_zero] at hsplit
+          have hr := NRel.repl (j := jumpEvent subId) Xl (Xl := Xl) rfl (NRel.refl Xl (jumpEvent subId)
+            (src.drop (bm.position + bm.subLength)))
+          have := NRel.prepend (src.take bm.position) hr
+          rw [hXl] at this
+          rw [hXl]
+          conv => arg 3; rw [hsplit]
+          simpa [List.append_assoc] using this
+        · rw [if_neg hi, hs1, if_neg hid]
+          cases ht : song.track? id with
+          | none => left; exact ⟨rfl, rfl⟩
+          | some t => right; exact ⟨t, t, rfl, rfl, NRel.refl _ _ _, hbzall id t ht⟩
+    rw [← hrw] at hinv2
+    have := findSubroutines_inv (bm := bm) (m2 := m2) (by rw [← hsubT]; exact hinv2) hbzX hnojX hXlen.symm
+      (s3 := v.1) (m3 := v.2) (by rw [hv])
+    rw [← hsubT] at this
+    exact this
+
 end Ctrmml.OptSteps
